@@ -20,6 +20,7 @@ import (
 //	exit-after    non-zero exit after all outputs were written completely
 //	killed        killed by a signal after half of the first output
 //	missing       exit 0 without producing the first declared output
+//	missing-last  exit 0 without producing the last declared output (the others are complete)
 type Fault struct {
 	Proc  string `json:"proc"`
 	Match string `json:"match"`
@@ -33,6 +34,7 @@ type Env struct {
 	Barriers map[string]*barrier
 	Cmds     []string          // command lines seen at the exec seam in this execution
 	lastCmd  string
+	dirMode  bool
 	CmdByKey map[string]string // task key -> the command scipipe handed over (between "cd tmp &&" and "&& cd ..")
 }
 
@@ -64,7 +66,7 @@ func (e *Env) writeOutputs(proc, key string, outs map[string]string, ins map[str
 	}
 	for i, port := range names {
 		data := []byte(contentOf(proc, port, ins, params))
-		if i == 0 && fault == "missing" {
+		if (i == 0 && fault == "missing") || (i == len(names)-1 && fault == "missing-last") {
 			continue
 		}
 		half := len(data) / 2
@@ -193,6 +195,14 @@ func (e *Env) simExec(name string, args []string) ([]byte, error, bool) {
 				return []byte("cd: no such directory " + nd), vs.RealExitError(1), true
 			}
 			cwd = nd
+		case "vdir":
+			e.lastCmd = part
+			e.dirMode = true
+			err := e.vcmd(cwd, f[1:])
+			e.dirMode = false
+			if err != nil {
+				return []byte(err.Error()), err, true
+			}
 		case "vcmd":
 			e.lastCmd = part
 			if err := e.vcmd(cwd, f[1:]); err != nil {
@@ -254,6 +264,15 @@ func (e *Env) vcmd(cwd string, f []string) error {
 	}
 	ins := map[string]string{}
 	for port, p := range insP {
+		if fi, serr := vs.FSStat(resolve(cwd, p)); serr == nil && fi.IsDir() {
+			d1, err1 := vs.FSReadFile(resolve(cwd, p) + "/part1")
+			d2, err2 := vs.FSReadFile(resolve(cwd, p) + "/part2")
+			if err1 != nil || err2 != nil {
+				return fmt.Errorf("vcmd %s: input directory %s is incomplete", proc, p)
+			}
+			ins[port] = string(d1) + "+" + string(d2)
+			continue
+		}
 		d, err := vs.FSReadFile(resolve(cwd, p))
 		if err != nil {
 			return fmt.Errorf("vcmd %s: cannot read %s: %v", proc, p, err)
@@ -263,6 +282,21 @@ func (e *Env) vcmd(cwd string, f []string) error {
 	outPaths := map[string]string{}
 	for port, p := range outs {
 		outPaths[port] = resolve(cwd, p)
+	}
+	if e.dirMode {
+		// the output is a directory holding two files
+		for port, dir := range outPaths {
+			if err := vs.FSMkdirAll(dir, 0777); err != nil {
+				return err
+			}
+			for _, part := range []string{"part1", "part2"} {
+				if err := vs.FSWriteFile(dir+"/"+part, []byte(contentOf(proc, port+"/"+part, ins, params)), 0644); err != nil {
+					return err
+				}
+			}
+		}
+		vs.Event("E:" + key)
+		return nil
 	}
 	if err := e.writeOutputs(proc, key, outPaths, ins, params); err != nil {
 		return err
